@@ -41,18 +41,16 @@ def rpq_case(rng, cancel=False, dereg=False, big=False):
             ops.append("step " + t)
         if rng.random() < 0.3:
             ops.append("obs")
-    # run every producer to completion (they may be parked on a full channel until the drain consumer runs)
-    drain = "D"
-    ops.append("task %s script %s" % (drain, ";".join(["pop"] * (total_items + 1))))
-    for _ in range(4 * total_items + 8):
-        for t in tasks:
-            if t.startswith("P"):
+    # drain phase: one fresh single-pop consumer at a time, every task stepped round-robin
+    for k in range(total_items + 1):
+        d = "D%d" % k
+        ops.append("task %s script pop" % d)
+        tasks.append(d)
+        for _ in range(5):
+            for t in tasks:
                 ops.append("step " + t)
-        ops.append("step " + drain)
     for t in tasks:
-        if t.startswith("C"):
-            ops += ["step " + t] * 6
-    ops += ["step " + drain] * 4
+        ops.append("res " + t)
     ops.append("obs")
     return ops
 
@@ -72,12 +70,10 @@ def rpq_oracle(case, impl):
             deregd.add(int(p[2]))
         elif p[0] == "cancel" and out == "done(cancelled)":
             cancelled.add(p[1])
-        elif p[0] in ("step", "cancel") and out.startswith("done(") and p[1] in scripts:
-            if out in ("done(cancelled)", "done(PANIC)"):
-                if out == "done(PANIC)":
-                    return "key=rpq-panic task %s panicked" % p[1]
-                continue
-            res = out[5:-1].split(";")
+        elif p[0] in ("step", "cancel") and out == "done(PANIC)":
+            return "key=rpq-panic task %s panicked" % p[1]
+        elif p[0] == "res" and p[1] in scripts:
+            res = out[1:-1].split(";") if out != "[]" else []
             sc = scripts.pop(p[1])
             for o, r in zip(sc, res):
                 f = o.split(":")
